@@ -23,9 +23,10 @@ type application struct {
 	stopped chan struct{}
 	reason  error
 
-	// a member can terminate before start() has put it into the group (the pid is
-	// known only when spawn returns). Such terminations are kept here while the
-	// application is starting and are processed once it has started.
+	// Members can terminate while start() is still spawning the others - even before
+	// start() has put them into the group (the pid is known only when spawn returns).
+	// Terminations are kept here while the application is starting and are processed
+	// once it has started, so that the mode rules see the complete group.
 	startLock sync.Mutex
 	starting  bool
 	early     map[gen.PID]error
@@ -65,16 +66,13 @@ func (a *application) start(mode gen.ApplicationMode, options gen.ApplicationOpt
 	a.starting = true
 	a.early = make(map[gen.PID]error)
 	a.startLock.Unlock()
-	type earlyMember struct {
-		pid    gen.PID
-		reason error
-	}
-	var gone []earlyMember
-	stopStarting := func() {
+	stopStarting := func() map[gen.PID]error {
 		a.startLock.Lock()
+		early := a.early
 		a.starting = false
 		a.early = nil
 		a.startLock.Unlock()
+		return early
 	}
 
 	// start items
@@ -108,28 +106,19 @@ func (a *application) start(mode gen.ApplicationMode, options gen.ApplicationOpt
 		}
 
 		lib.VerifPoint("app.member.spawned", pid.ID)
-		a.startLock.Lock()
-		if reason, terminated := a.early[pid]; terminated {
-			delete(a.early, pid)
-			gone = append(gone, earlyMember{pid, reason})
-		} else {
-			a.group.Store(pid, true)
-		}
-		a.startLock.Unlock()
+		a.group.Store(pid, true)
 	}
-	stopStarting()
 
 	a.node.log.Info("application %s (%s) started", a.spec.Name, a.mode)
 	a.parent = options.CorePID.Node
 
 	a.started = time.Now().Unix()
 
-	// members that were gone before they were known as members are processed
-	// once the application has started (also if the Start callback panics)
+	// members that terminated in the meantime are processed once the application
+	// has started (also if the Start callback panics)
 	defer func() {
-		for _, m := range gone {
-			a.group.Store(m.pid, true)
-			a.terminate(m.pid, m.reason)
+		for pid, reason := range stopStarting() {
+			a.terminate(pid, reason)
 		}
 	}()
 
@@ -198,13 +187,14 @@ func (a *application) stop(force bool, timeout time.Duration) error {
 
 func (a *application) terminate(pid gen.PID, reason error) {
 	a.startLock.Lock()
-	_, exist := a.group.LoadAndDelete(pid)
-	if exist == false && a.starting {
-		// it might be a member start() has not registered yet
+	if a.starting {
+		// it might even be a member start() has not registered yet
 		a.early[pid] = reason
+		a.startLock.Unlock()
+		return
 	}
 	a.startLock.Unlock()
-	if exist == false {
+	if _, exist := a.group.LoadAndDelete(pid); exist == false {
 		// it was started as a child process somewhere deep in the supervision tree
 		// do nothing.
 		return
